@@ -43,6 +43,7 @@ PREDICT = {
     "lockholder": [(None, 1, 0)],    # sleeping in a callback while holding the receive lock; the interrupt unwinds it
     "transfer": [(0, 1, 0)],         # send raises OSError once the connection is gone
     "endmarker_raiser": [(None, 1, 0)],   # a callback that raises when it is handed its endmarker by the epilogue; the body sleeps
+    "inbound_transfer": [(0, 1, 0)], # receive() raises EOFError when the connection ends, also in the middle of a message
     "callback_sysexit": [(0, 1, 0)], # a callback raised SystemExit in the receiver thread; the body blocks in receive()
     "nondaemon_thread": [],          # the body has ended; a non-daemon thread started by it remains (outside the pool: not modelled)
     "sender": [(0, 1, 0)],           # a stream of small items: unflushed bytes stay in the write buffer when the peer dies
@@ -178,7 +179,7 @@ def main(tier, seed, replay=None):
 
 
 def real_layer(ck, tier, rng):
-    acts = ["idle", "blocked", "busy", "sleeping", "swallow", "threads", "nonmain_busy", "lockholder", "transfer", "sender", "sender_swallow", "endmarker_raiser", "callback_sysexit", "nondaemon_thread"]
+    acts = ["idle", "blocked", "busy", "sleeping", "swallow", "threads", "nonmain_busy", "lockholder", "transfer", "sender", "sender_swallow", "endmarker_raiser", "callback_sysexit", "nondaemon_thread", "inbound_transfer"]
     hows = ["kill", "kill", "exit", "close"]
     jobs = []
     if tier == "quick":
@@ -264,16 +265,23 @@ def real_layer(ck, tier, rng):
     # the ladder model's prediction for every scenario
     try:
         mouts = Model().run([[11] + [x for (e, m, sw) in PREDICT[j[0]] for x in (-1 if e is None else e, m, sw)] for j, _, _ in results])
+        # execmodel thread: a body that arrives while the primary thread is still finishing the previous task (here: _rinfo) runs in
+        # a thread of its own -- both placements are behaviours of the code, the model predicts each
+        mouts_alt = Model().run([[11] + [x for (e, m, sw) in PREDICT[j[0]] for x in (-1 if e is None else e, 0, sw)] for j, _, _ in results])
     except Exception as e:  # noqa
         ck.broke("correspondence", "modelrun-ladder", repr(e))
         mouts = None
     if mouts:
-        for (job, gone_at, left), mo in zip(results, mouts):
+        for (job, gone_at, left), mo, mo_alt in zip(results, mouts, mouts_alt):
             if gone_at is None or isinstance(left, str):
                 continue
             pred = mo[0]
+            fits = lambda pr: pr - 0.5 <= gone_at <= pr + 2.5 + (1.0 if job[1] != "kill" else 0)  # noqa
+            if job[3] == "thread" and not fits(pred) and fits(mo_alt[0]):
+                pred = mo_alt[0]
+                ck.count("ladder_body_outside_main_thread")
             ck.count("ladder_branch_%ds" % pred)
-            if not (pred - 0.5 <= gone_at <= pred + 2.5 + (1.0 if job[1] != "kill" else 0)):
+            if not fits(pred):
                 ck.broke("correspondence", "ladder-model-vs-real-process", {"activity": job[0], "how": job[1], "execmodel": job[3], "model_exit_s": pred, "observed_s": round(gone_at, 2)})
     ck.cov["real_scenarios"] = len(results)
     ck.cov["gone_after_s"] = {"%s/%s/%s" % (j[0], j[1], j[3]): (round(g, 2) if g is not None else None) for j, g, _ in results}
